@@ -273,6 +273,8 @@ def handle (toks : List String) : String :=
   | "seq" :: rest => (handleSeq rest).getD "bad-request"
   | "imdseq" :: _ => (C08Img.handle toks).getD "bad-request"
   | "td0seq" :: _ => (C08Img.handle toks).getD "bad-request"
+  | "imdseqx" :: _ => (C08Img.handle toks).getD "bad-request"
+  | "td0seqx" :: _ => (C08Img.handle toks).getD "bad-request"
   | _ => (handleCodec toks).getD "bad-request"
 
 end A2Verif.Drv.C08
